@@ -1,3 +1,6 @@
 pub mod c02;
 pub mod c03;
+pub mod c12;
+pub mod c17;
+pub mod c18;
 pub mod c19;
